@@ -96,6 +96,7 @@ Definition sum_step (i : nat) (x : reg) : list cmd :=
 
 (* the full-batch gradient pass of Mime / MimeLite (mime.py:168-173) *)
 Definition grads_pass (cids : list Z) : list cmd :=
+  [Call (ROwn 30) F_NONE [] []] ++           (* pytree_sum = None: what tree_sum returns for an empty cohort *)
   flat_map (fun ic : nat * Z => open_client (fst ic) ++ run_client [RIn 2] [] (ROwn 3) ++ sum_step (fst ic) (ROwn 3))
            (indexed 0 cids) ++
   [Call (ROwn 31) F_INVW [ROwn 30] []].
@@ -149,6 +150,7 @@ Definition script_agnostic (W : nat) (cids : list Z) : list cmd :=
            (indexed 0 cids) ++
   mean_end ++
   (* tree_sum over the metrics of all clients *)
+  [Call (ROwn 30) F_NONE [] []] ++
   flat_map (fun ic : nat * Z => sum_step (fst ic) (ROwn (300 + fst ic))) (indexed 0 cids) ++
   server_opt (ROwn 6) (RIn 3) (RIn 2) ++
   [Call (ROwn 42) F_EG [RIn 4; ROwn 30] [];
@@ -238,7 +240,7 @@ Definition agg_finish : list cmd :=
    arith = encode_algorithm == 'arithmetic': a per-call list total_bits collects one entry per client *)
 Definition script_quant1 (arith : bool) (cids : list Z) : list cmd :=
   [Field (RIn 2) st_r 0; Field (RIn 3) st_r 1;
-   Call (RIn 5) F_SPLIT0 [RIn 3] []; Call (ROwn 21) F_SPLIT1 [RIn 3] []] ++
+   Call (RIn 5) F_SPLIT0 [RIn 3] []; Call (ROwn 21) F_SPLIT1 [RIn 3] []; Call (ROwn 24) F_NONE [] []] ++
   (if arith then [ListNew (ROwn 60)] else []) ++
   flat_map (fun ic : nat * Z => open_client (fst ic) ++
                       [Call (ROwn 22) F_SEQKEY [ROwn 21] []; Call (ROwn 21) F_SEQREST [ROwn 21] [];
@@ -251,7 +253,7 @@ Definition script_quant1 (arith : bool) (cids : list Z) : list cmd :=
 Definition script_rotated (cids : list Z) : list cmd :=
   [Field (RIn 2) st_r 0; Field (RIn 3) st_r 1;
    Call (RIn 6) F_SPLIT0 [RIn 3] []; Call (ROwn 27) F_SPLIT1 [RIn 3] [];
-   Call (RIn 5) F_SPLIT0 [RIn 6] []; Call (ROwn 21) F_SPLIT1 [RIn 6] []] ++
+   Call (RIn 5) F_SPLIT0 [RIn 6] []; Call (ROwn 21) F_SPLIT1 [RIn 6] []; Call (ROwn 24) F_NONE [] []] ++
   flat_map (fun ic : nat * Z => open_client (fst ic) ++
                       [Call (ROwn 22) F_SEQKEY [ROwn 21] []; Call (ROwn 21) F_SEQREST [ROwn 21] [];
                        Call (ROwn 28) F_ROT [RIn 11; ROwn 27] [];
@@ -261,7 +263,7 @@ Definition script_rotated (cids : list Z) : list cmd :=
 (* structured_drive_quantizer (300-325): rng, rotation_rng = split(state.rng); PRNGSequence(rotation_rng) *)
 Definition script_drive (cids : list Z) : list cmd :=
   [Field (RIn 2) st_r 0; Field (RIn 3) st_r 1;
-   Call (RIn 5) F_SPLIT0 [RIn 3] []; Call (ROwn 21) F_SPLIT1 [RIn 3] []] ++
+   Call (RIn 5) F_SPLIT0 [RIn 3] []; Call (ROwn 21) F_SPLIT1 [RIn 3] []; Call (ROwn 24) F_NONE [] []] ++
   flat_map (fun ic : nat * Z => open_client (fst ic) ++
                       [Call (ROwn 22) F_SEQKEY [ROwn 21] []; Call (ROwn 21) F_SEQREST [ROwn 21] [];
                        Call (ROwn 28) F_ROT [RIn 11; ROwn 22] [];
